@@ -90,6 +90,13 @@ pub fn run(ctx: &Ctx) -> PropReport {
                 super::c07::death_case((i * 7919) % (super::c07::NBASE * 120), seed, 1, &[0, 2])
             }
         }, eval, false));
+    // drops in 3-peer sessions: the survivors sit at the prediction limit (Save of the current frame issued) when the
+    // victim is timed out, the drop-only rollback re-simulates up to the current frame, and the other survivor's input
+    // for that very frame - still outstanding - is then mispredicted: the next rollback loads the current frame's cell
+    // (added after seeded change C02-r9 was missed: no C02 scenario had a drop with another remote still connected)
+    rep.part(|| run_enum(ctx, "multi_drop",
+        "C04's starved_after_drop scenarios (3 peers, windows {0,1,2,4,8,12}, sparse, delays, 1-2 local players: a peer dies and is timed out by both survivors with the same cut-off, later a survivor's link is cut for a while) and C10's equal-amount two-drop scenarios (4 peers): same request contract",
+        ctx.tier.pick(2500u64, 12000u64), move |i| if i % 3 == 2 { super::c10::gossip_case(i / 3, seed) } else { super::c04::after_drop_case(i, seed) }, eval, false));
     let mut pw = p.clone();
     pw.windows = vec![(1, 0)];
     rep.part(|| run_random(ctx, "lockstep_wait", "same oracle (plus: an Err result never moves current_frame()); lockstep sessions in which all or a seeded subset of the peers call advance_frame_with_wait / _with_wait_timeout(3 ms) / (0) in rotation under an auto-ticking clock, link latency 0-45 ms so that the missing input - or the input of the next frame - arrives while the helper is spinning; non-trivial = a packet was delivered during a wait call after its first poll", || lockstep_wait(&pw), ctx.tier.pick(2500, 10000), eval_wait));
